@@ -109,3 +109,72 @@ def reloc(prog):
                   '' if ok else 'the jal target `%s` is OR-ed in without a 26-bit mask: an address at or above 0x10000000 overwrites '
                   'the opcode bits' % show(ins)[:60], 'target >> 2 masked to 26 bits, opcode kept under 0xfc000000'))
     return RuleResult('RELOC', obs, 1, {})
+
+
+def name_exact(prog):
+    """NAME-EXACT: the import parsers identify ELF sections and ar members by their whole name.
+    (a) core/imports_obj.cpp: a section name is compared with a literal (".text", ".rel.text", ".strtab", ...) by an
+        exact string comparison; a prefix comparison (strncmp with a length that does not cover the terminator) makes
+        `.text.unlikely`, `.rel.text.startup` ... match as well and the last match wins.
+    (b) core/imports_ar.cpp: the 16-byte member identifier is compared as a whole field (strncmp/memcmp over 16 bytes);
+        a test of single characters classifies long-named members (`/123`) as the special `/` or `//` member."""
+    obs = []
+    # (a)
+    k = 0
+    for fn in prog.functions(lambda f: f.file == 'core/imports_obj.cpp'):
+        for c in sorted(fn.calls(), key=lambda x: x['i']):
+            q = callee(c)
+            if q not in ('strcmp', 'strncmp', 'strcasecmp', 'strncasecmp', 'memcmp'):
+                continue
+            args = call_args(c)
+            lits = [strip(a, casts=True) for a in args[:2]]
+            lit = [x for x in lits if x['k'] == 'StringLiteral']
+            if not lit or not (lit[0].get('s') or '').startswith('.'):
+                continue
+            k += 1
+            s_ = lit[0]['s']
+            ok = q in ('strcmp', 'strcasecmp')
+            if not ok:
+                n_ = const(args[2]) if len(args) > 2 else None
+                ok = n_ is not None and n_ > len(s_) and q != 'memcmp' or (q == 'memcmp' and n_ == len(s_) + 1)
+            obs.append(Ob('NAME-EXACT', fn.file, c['l'], fn.q, 'section:%s#%d' % (s_, k), DISCHARGED if ok else VIOLATED,
+                          '' if ok else '`%s` matches every section whose name starts with "%s": with two such sections the '
+                          'offsets of the last one are used for the symbols of the first' % (show(c)[:60], s_),
+                          'exact comparison with "%s"' % s_))
+    na = k
+    # (b)
+    rec = prog.records.get('Header')
+    k = 0
+    for fn in prog.functions(lambda f: f.file == 'core/imports_ar.cpp'):
+        for n in sorted(fn.nodes.values(), key=lambda x: x['i']):
+            if n['k'] != 'MemberExpr' or n.get('n') != 'file_identifier':
+                continue
+            p = fn.parent.get(n['i'])
+            while p is not None and p['k'] in ('ImplicitCastExpr', 'ParenExpr', 'CStyleCastExpr'):
+                p = fn.parent.get(p['i'])
+            if p is None:
+                continue
+            if p['k'] in ('CallExpr',) and callee(p) in ('printf', 'fprintf'):
+                continue
+            k += 1
+            if p['k'] == 'CallExpr' and callee(p) in ('strncmp', 'memcmp'):
+                args = call_args(p)
+                n_ = const(args[2]) if len(args) > 2 else None
+                lit = [strip(a, casts=True) for a in args[:2] if strip(a, casts=True)['k'] == 'StringLiteral']
+                ok = n_ == 16 and lit and len(lit[0].get('s') or '') == 16
+                det = '' if ok else '`%s` does not compare the whole 16-byte identifier field' % show(p)[:70]
+            elif p['k'] == 'ArraySubscriptExpr':
+                ok = False
+                gp = fn.parent.get(p['i'])
+                while gp is not None and gp['k'] in ('ImplicitCastExpr', 'ParenExpr'):
+                    gp = fn.parent.get(gp['i'])
+                det = ('`%s` classifies an archive member by a single character of its identifier: a long-named member '
+                       '(`/<offset>`) is taken for the `/` or `//` special member' % show(gp or p)[:60])
+            else:
+                ok = False
+                det = 'identifier used in `%s`' % show(p)[:60]
+            obs.append(Ob('NAME-EXACT', fn.file, n['l'], fn.q, 'ar-identifier#%d' % k, DISCHARGED if ok else VIOLATED, det,
+                          'whole-field comparison (16 bytes)'))
+    if na < 3 or k < 2:
+        raise AnalysisBroken('NAME-EXACT: %d section-name tests, %d identifier tests (expected >= 3 and >= 2)' % (na, k))
+    return RuleResult('NAME-EXACT', obs, 5, {})
